@@ -83,7 +83,9 @@ func (s *c06Sender) SendToPeer(p identity.AgentID, f *protocol.Frame) error {
 	s.wire[p] = append(s.wire[p], b)
 	return nil
 }
-func (s *c06Sender) GetPeerIDs() []identity.AgentID { return append([]identity.AgentID(nil), s.peers...) }
+func (s *c06Sender) GetPeerIDs() []identity.AgentID {
+	return append([]identity.AgentID(nil), s.peers...)
+}
 func (s *c06Sender) reset() {
 	s.wire = map[identity.AgentID][][]byte{}
 	s.sendErrs = map[identity.AgentID]int{}
@@ -587,7 +589,7 @@ func TestVerif_C06(t *testing.T) {
 
 	var ns []int
 	if r.Thorough() {
-		for n := 0; n <= 600; n++ {
+		for n := 0; n <= 800; n++ {
 			ns = append(ns, n)
 		}
 	} else {
